@@ -115,7 +115,7 @@ func (s *rapidStyle) Zeros() int {
 	if !s.zeros {
 		return 0
 	}
-	n := rapid.SampledFrom([]int{0, 0, 1, 2, 3}).Draw(s.t, "zeros")
+	n := rapid.SampledFrom([]int{0, 0, 0, 1, 1, 2, 3, 22, 60}).Draw(s.t, "zeros") // padded beyond the digits of any machine integer too
 	if n > 0 {
 		s.nEdits["zeros"]++
 	}
